@@ -240,27 +240,34 @@ def depth_cyclic(sink):
 # ------------------------------------------------------------------------------------ (2) mutation matrix
 TRAVERSALS = ('flatten', 'with_path', 'iter', 'flatten_up_to', 'map_rest', 'all_leaves', 'broadcast_common', 'traverse_leaves', 'unflatten_leaves', 'from_collection')
 CONTAINERS = ('list', 'dict', 'ordereddict', 'defaultdict', 'deque', 'custom-list')
-POSITIONS = ('predicate', 'custom-flatten', 'key-lt', 'key-hash', 'child-dict-key-lt', 'child-dict-key-hash', 'child-metaclass-hook')
+POSITIONS = ('predicate', 'custom-flatten', 'key-lt', 'key-hash', 'child-dict-key-lt', 'child-dict-key-hash', 'child-metaclass-hook') + tuple(f'{p}@{k}' for p in ('lookup-key-eq', 'spec-key-hash') for k in (0, 2, 5, 6, 8, 11))
+TWO_TREE = ('flatten_up_to', 'map_rest', 'broadcast_common')
 MUTATIONS = ('del-before', 'del-after', 'clear', 'grow', 'replace')
 
 
 class MKey:
     """dict key that can run an action from __lt__ or __hash__."""
 
-    __slots__ = ('v', 'on_lt', 'on_hash')
+    __slots__ = ('v', 'on_lt', 'on_hash', 'on_eq')
 
     def __init__(self, v):
         self.v = v
         self.on_lt = None
         self.on_hash = None
+        self.on_eq = None
 
     def __hash__(self):
         if self.on_hash is not None:
             act, self.on_hash = self.on_hash, None
-            act()
+            if act():  # a counting hook returns True to stay armed
+                self.on_hash = act
         return hash(('MKey', self.v))
 
     def __eq__(self, o):
+        if self.on_eq is not None and o is not self:
+            act, self.on_eq = self.on_eq, None
+            if act():
+                self.on_eq = act
         return type(o) is MKey and o.v == self.v
 
     def __lt__(self, o):
@@ -426,7 +433,27 @@ def build_cell(container, position, mutation, element_factory):
             keys[trigger_index].on_hash = mutate
         else:
             return None
-    return cont, fired, pred, elems
+    elif position.startswith('lookup-key-eq@'):
+        # the dict being MATCHED against another tree / a treespec: its stored keys' __eq__ run when the engine looks the expected keys up
+        # (once per key in the key-set comparison, once more in the child lookups): the k-th such call mutates the dict
+        if container in ('dict', 'defaultdict', 'ordereddict'):
+            at, seen = int(position.split('@')[1]), [0]
+
+            def counting_eq():
+                seen[0] += 1
+                if seen[0] - 1 == at and not fired[0]:
+                    mutate()
+                return True
+
+            for k_ in keys:
+                k_.on_eq = counting_eq
+        else:
+            return None
+    elif position.startswith('spec-key-hash@'):
+        # armed by run_cell on the keys of the OTHER tree (the ones recorded in the treespec): hashing the expected key mutates the dict under match
+        if container not in ('dict', 'defaultdict', 'ordereddict'):
+            return None
+    return cont, fired, pred, elems, mutate
 
 
 def run_cell(sink, trav, container, position, mutation, wrap):  # noqa: C901
@@ -438,13 +465,27 @@ def run_cell(sink, trav, container, position, mutation, wrap):  # noqa: C901
     built = build_cell(container, position, mutation, fac)
     if built is None:
         return False
-    cont, fired, pred, elems = built
+    cont, fired, pred, elems, mutate = built
+    if position.split('@')[0] in ('lookup-key-eq', 'spec-key-hash') and trav not in TWO_TREE:
+        return False
     tree = cont if wrap == 'root' else [U.Leaf('pre'), cont, U.Leaf('post')]
     kw = dict(namespace=NSM)
     # a pristine twin for operations that need a second tree / a treespec made beforehand
     twin_built = build_cell(container, 'none' if not position.startswith('child-') else 'twin-' + position, mutation, fac)
     twin = twin_built[0] if wrap == 'root' else [U.Leaf('pre'), twin_built[0], U.Leaf('post')]
     twin_spec = optree.tree_structure(twin, **kw)
+    if position.startswith('spec-key-hash@'):
+        # the k-th hash of an expected key (the key-set comparison hashes each once, the child lookups once more) mutates the dict under match
+        at, seen = int(position.split('@')[1]), [0]
+
+        def counting_hash():
+            seen[0] += 1
+            if seen[0] - 1 == at and not fired[0]:
+                mutate()
+            return True
+
+        for k_ in list(twin_built[0]):
+            k_.on_hash = counting_hash
 
     def consistent_flat(leaves, spec):
         if len(leaves) != spec.num_leaves:
